@@ -131,19 +131,21 @@ def gen_case(rng, backend, tier, float_angles=False):
         n = min(k + rng.choice([0, 0, 1]), 3)
         ng = rng.randint(1, 6)
         npre = rng.choice([0, 0, 1, 2])
-    phys = sorted(rng.sample(range(n), k))
+    top_idle = n > k and rng.random() < 0.5
+    phys = sorted(rng.sample(range(n - 1 if top_idle else n), k))
     if rng.random() < 0.4:
         rng.shuffle(phys)
     mapping = {i: q for i, q in enumerate(phys)}
     gates = embed(LC.rand_gate_list(rng, k, ng, names, max_controls=3, var_p=0.0, edge_p=0.3, echo_p=0.15), mapping)
     prefix = embed(LC.rand_gate_list(rng, k, npre, names, max_controls=2, var_p=0.0, edge_p=0.1, echo_p=0.0), mapping) if npre else []
-    if npre and rng.random() < 0.5:
-        # make the initial state dense: a Hadamard layer first
-        prefix = [{"name": "H", "target": [q], "control": None, "k": None} for q in phys] + prefix
+    if npre and rng.random() < 0.6:
+        # make the initial state dense and complex: a Hadamard layer, then a different phase on every qubit
+        prefix = [{"name": "H", "target": [q], "control": None, "k": None} for q in phys] \
+            + [{"name": rng.choice(["RZ", "PHASE", "RX"]), "target": [q], "control": None, "k": rng.choice([1, 2, 3, 5, 7, -3, 11])} for q in phys] + prefix
     if float_angles:
         for s in gates:
             if s.get("k") is not None:
-                s["p"] = rng.uniform(-9.0, 9.0)
+                s["p"] = rng.uniform(-14.0, 14.0)              # beyond +-4*pi
                 s["k"] = None
     declared = rng.random() < 0.6
     if rng.random() < 0.03 and prefix:
@@ -154,7 +156,7 @@ def gen_case(rng, backend, tier, float_angles=False):
         n = max([q for s in gates for q in s["target"] + (s["control"] or [])]) + 1
         prefix = [s for s in prefix if all(q < n for q in s["target"] + (s["control"] or []))]
     return {"backend": backend, "n": n, "n_arg": n if declared else None, "prefix": prefix, "gates": gates,
-            "isv": bool(prefix) or rng.random() < 0.2}
+            "isv": bool(prefix) or rng.random() < 0.2, "top_idle": bool(declared and top_idle)}
 
 
 def ref_states(case):
@@ -295,17 +297,23 @@ def check_exact(ck, case, order, model_out, stream):
     n = case["n"]
     backend = case["backend"]
     psi0, ref_np = ref_states(case)
-    parts = model_out.split(" | ")
     replay = {"kind": "exact", "case": case, "order": order}
-    if model_out == "?" or len(parts) < 3:
+    parts = None if model_out is None else model_out.split(" | ")
+    ref = ref_np
+    if model_out is None:
+        ck.not_evaluated += 1                       # Coq evaluation unavailable (reported once by the caller): numpy reference only
+    elif model_out == "?" or len(parts) < 3:
         ck.violation("C01/correspondence/interp", "the Coq interpreter rejects a gate list of the supported gate set: %s" % json.dumps(case["gates"])[:300],
                      replay, found_input=False)
-        return
-    ref = parse_vec(parts[0])
-    if len(ref) != len(ref_np) or np.max(np.abs(ref - ref_np)) > TOL:
-        ck.violation("C01/oracles-disagree", "exact Coq evaluation and np_sim differ by %.3g on %s" % (np.max(np.abs(ref - ref_np)), json.dumps(case["gates"])[:300]),
-                     replay, found_input=False)
-        return
+        parts = None
+    else:
+        ref_coq = parse_vec(parts[0])
+        if len(ref_coq) != len(ref_np) or np.max(np.abs(ref_coq - ref_np)) > TOL:
+            ck.violation("C01/oracles-disagree", "exact Coq evaluation and np_sim differ by %.3g on %s; the implementation is judged against np_sim"
+                         % (np.max(np.abs(ref_coq - ref_np)) if len(ref_coq) == len(ref_np) else -1, json.dumps(case["gates"])[:300]), replay, found_input=False)
+            parts = None
+        else:
+            ref = ref_coq
     try:
         f, sv = run_impl(case, order)
     except Exception as e:          # noqa
@@ -331,8 +339,8 @@ def check_exact(ck, case, order, model_out, stream):
                          "%s; minimal circuit %s (n=%d, prefix %s)" % ("; ".join(bad[:3]), json.dumps(small["gates"])[:400], small["n"], json.dumps(small["prefix"])[:200]),
                          {"kind": "exact", "case": small, "order": order})
     # ---- model correspondence (the Coq models of what the backend returns) ----
-    mvec = parse_vec(parts[1])
-    mfreq = parse_freqs(parts[2])
+    mvec = parse_vec(parts[1]) if parts else None
+    mfreq = parse_freqs(parts[2]) if parts else None
     # (for sympy without initial state / multi-controls the vector model must hold whatever order is advertised)
     if backend == "sympy" and case["gates"]:
         # faithful as-is model of the sympy path: the supplied vector is read little-endian, controlled branches keep
@@ -343,7 +351,7 @@ def check_exact(ck, case, order, model_out, stream):
             ck.violation("C01/correspondence/sympy/as-is-model", "the sympy path is not explained by the as-is model (little-endian vectors, controls per the "
                          "regenerated table) on %s" % json.dumps(case["gates"])[:300], replay, found_input=False)
     coq_vec_applies = not (backend == "sympy" and case["isv"] and order == "lsq_first")     # input re-interpretation is outside sympy_sv
-    if (not bad and coq_vec_applies) or (backend == "sympy" and not case["isv"] and not has_multi(case)):
+    if parts and ((not bad and coq_vec_applies) or (backend == "sympy" and not case["isv"] and not has_multi(case))):
         if backend == "sympy" and not case["gates"]:
             pass            # identity path of Backend.simulate: the supplied vector is returned untouched, sympy is not involved
         elif sv is None or len(mvec) != len(sv) or np.max(np.abs(mvec - sv)) > FTOL:
@@ -361,7 +369,8 @@ def check_exact(ck, case, order, model_out, stream):
     ck.case(stream, json.dumps(case, sort_keys=True), nontrivial=(len(kinds) >= 2 and nz >= 2) or multi or nonadj,
             sample={"case": {k: case[k] for k in ("backend", "n", "n_arg", "isv")}, "gates": case["gates"][:5], "frequencies": dict(list(f.items())[:4])},
             tags=kinds + ["n=%d" % n, "isv" if case["isv"] else "zero-state", "declared-width" if case["n_arg"] is not None else "width-from-gates"]
-            + (["multi-control"] if multi else []) + ["controls=%d" % len(s["control"]) for s in case["gates"] if s["control"]])
+            + (["multi-control"] if multi else []) + (["top-qubit-idle"] if case.get("top_idle") else [])
+            + ["controls=%d" % len(s["control"]) for s in case["gates"] if s["control"]])
 
 
 def _raises(c, order):
@@ -618,7 +627,7 @@ def malformed_stream(ck, tables, orders):
 
 def float_stream(ck, orders):
     rng = ck.rng
-    ck.stream("float-angles", "random circuits with uniform real angles in [-9, 9] against np_sim (tolerance 1e-8), cirq and a few sympy; "
+    ck.stream("float-angles", "random circuits with uniform real angles in [-14, 14] (beyond +-4*pi) against np_sim (tolerance 1e-8), cirq and a few sympy; "
               "non-trivial = at least one parameterised gate and a state with >= 2 non-zero amplitudes")
     nc, ns = (120, 4) if ck.tier == "quick" else (3000, 40)
     for i in range(nc + ns):
